@@ -347,6 +347,10 @@ def _posclass(f):
     return str(f[1])
 
 
+ENUM_LABELS = ["platform", "initial-state", "lifetimes", "entropy.digits-first", "force-change",
+               "new-pin-behaviour", "fault-kind", "fault-position"]
+
+
 class _Enum:
     """Single-lifetime change scenarios (x power cycle + restart): every crash seam, every file
     operation x fault, every PIN exchange x link fault."""
